@@ -528,7 +528,7 @@ func c06History(c *vc.Ctx, idx int) {
 		tot += len(o)
 	}
 	if tot < 5 {
-		c.Inconclusive("almost nothing became owed (%d items)", tot)
+		c.Count("histories_in_which_almost_nothing_became_owed", 1) // judged over the whole run (checkconf.json: require_observed)
 	}
 	c.Sample(map[string]any{"owed": map[string]int{"hash": len(m.owed["hash"]), "deposit": len(m.owed["deposit"]), "paid": len(m.owed["paid"]), "refund": len(m.owed["refund"]), "reward": len(m.owed["reward"]), "unlock": len(m.owed["unlock"])},
 		"delivered": m.delivered, "abandoned_rounds": abandoned, "restarts": restarts, "forced_tampered_payloads": forced, "final_nonces": fmt.Sprint(m.nonce)})
